@@ -7,4 +7,8 @@ PROP = {
             "and every Write call's bytes. Plus a sweep over the quantities of the typed multi-register reads.",
     "assumptions": ["udp/tls/serial transports share the same request construction; their wiring is covered by C16"],
 }
-CLAIM = None
+CLAIM = {
+  "text": "Coq theorems over the client model: for EVERY public read/write call, address, quantity, slice length (incl. >= 65536 and register totals overflowing 16 bits), value, unit id, byte/word order and both framings, the request PDU equals the Modbus encoding exactly when the arguments are within protocol limits (c01_request_exact) and then exactly one frame (MBAP header / RTU CRC = bit-serial reference) is written, otherwise nothing is written and the unexpected-parameters error is returned (c01_transmit). The model is compared with the real client's Write calls on every run.",
+  "note": "Model follows the tree with fix commits F2/F3 applied (the pinned tree violated the property: see known_findings.json). Trusted: kernel, extraction, harness, scripted connection; tcp+tls/udp/serial share the request path (socket wiring: C16).",
+  "technique": "Coq proof (model = unbounded-arithmetic spec, case analysis + lia) + differential correspondence on write logs",
+}
